@@ -81,6 +81,7 @@ namespace tapkee
  *        keywords expression.
  *
  * @throw tapkee::wrong_parameter_error if wrong parameter value is passed
+ * @throw tapkee::wrong_parameter_type_error if a parameter is passed with a value of a wrong type
  * @throw tapkee::missed_parameter_error if some required parameter is missed
  * @throw tapkee::multiple_parameter_error if some parameter is provided more than once
  * @throw tapkee::unsupported_method_error if some method or combination of methods is unsupported
